@@ -287,7 +287,29 @@ def unit_bounded_semicolon_values(U):
                     fails.append({"case": {"attributes": attr}, "expected": [sep, sep, ["Note", "Sequence", "gene_id"]], "observed": list(got)})
     U.bounded_result("C09.bounded.semicolon_values", "field separator and key order are those of the attribute list, whatever semicolons the quoted values hold", "2 separators x 3 first values x trailing semicolon", cases, fails)
 
-UNITS = [("bounded.semicolon_values", unit_bounded_semicolon_values), ("bounded.reported_after_printing", unit_bounded_reported_after_printing), ("route", unit_route), ("fresh", unit_fresh), ("prebuilt", unit_prebuilt), ("line.kv", _unit_line(("k=v", 'k="v"'))), ("line.sp", _unit_line(('k "v"', "k v"))), ("vote", unit_vote), ("window", unit_window)]
+def unit_bounded_repeated_empty(U):
+    """Bounded: a key that occurs twice on a line is a repeated key - also when its FIRST occurrence carries no value (an
+    empty quoted value, 'key=' or a bare flag); reported by infer_dialect, DataIterator and the database alike"""
+    fails, cases = [], 0
+    attrs = [('gene_id "g1"; transcript_id "t1"; tag ""; tag "basic";', True), ('gene_id "g1"; tag ""; tag "basic"; tag "CCDS";', True),
+             ("ID=a;Alias=;Alias=foo", True), ("ID=a;Alias;Alias=foo", True), ("ID=a;Alias=;Alias=", True),
+             ('gene_id "g1"; tag ""; note "x";', False), ("ID=a;Alias=;Name=foo", False), ("ID=a;Alias=foo;Alias=bar", True)]
+    for attr, exp in attrs:
+        cases += 1
+        line = "c\ts\texon\t1\t9\t.\t+\t.\t" + attr
+        try:
+            d = H.infer_dialect(attr)
+            it_ = gffutils.DataIterator(line + "\n" + line.replace("1\t9", "2\t8") + "\n", from_string=True)
+            db = gffutils.create_db(line + "\n" + line.replace("1\t9", "2\t8") + "\n", ":memory:", from_string=True, id_spec=":start:",
+                                    disable_infer_genes=True, disable_infer_transcripts=True)
+            got = [d["repeated keys"], it_.dialect["repeated keys"], db.dialect["repeated keys"]]
+            if got != [exp] * 3:
+                fails.append({"case": {"attributes": attr}, "expected": {"repeated keys": exp}, "observed": dict(zip(("infer_dialect", "DataIterator", "FeatureDB"), got))})
+        except Exception as e:
+            fails.append({"case": {"attributes": attr}, "expected": {"repeated keys": exp}, "observed": repr(e)})
+    U.bounded_result("C09.bounded.repeated_key_with_empty_value", "'repeated keys' is reported whenever a key occurs twice on a line, whatever values the occurrences carry", "8 attribute strings x infer_dialect / DataIterator / FeatureDB", cases, fails)
+
+UNITS = [("bounded.repeated_empty", unit_bounded_repeated_empty), ("bounded.semicolon_values", unit_bounded_semicolon_values), ("bounded.reported_after_printing", unit_bounded_reported_after_printing), ("route", unit_route), ("fresh", unit_fresh), ("prebuilt", unit_prebuilt), ("line.kv", _unit_line(("k=v", 'k="v"'))), ("line.sp", _unit_line(('k "v"', "k v"))), ("vote", unit_vote), ("window", unit_window)]
 try:
     from standins import C09 as _S
     UNITS = UNITS + list(_S.UNITS)
